@@ -269,7 +269,7 @@ example : binopType true .sub { ty := .ptr {} Ty.int } { ty := .ptr { c := true 
 /-- 6.5.15: both arithmetic (usual arithmetic conversions, also when both have the same narrow
 type), same struct/union, both void, pointer/null pointer constant, pointers to compatible types
 (qualifiers merged), pointer to object and pointer to void: whenever C11 types `c ? l : r` (scalar
-first operand, 6.5.15p2; fix 8620260), `condexpr` (non-constant condition) accepts it and gives it a type C11 allows -/
+first operand, 6.5.15p2; fix 98b06a1), `condexpr` (non-constant condition) accepts it and gives it a type C11 allows -/
 theorem cond_type_correct (sc : Bool) (c l r : Operand) (t : Ty) (hs : c.ty.isScalar = true)
     (hc : c.constval = none)
     (ol : OperandOk l) (or' : OperandOk r) (h : condOk sc l r t = true) :
